@@ -172,6 +172,8 @@ pub struct Run {
     pub watch: Vec<PathBuf>,
     pub fault: Option<String>,
     pub trunc_fault: Option<String>,
+    /// IOMON_NS_FAULT: "<widx>,<unlink|open>,<errno>[,<nth>]".
+    pub ns_fault: Option<String>,
     pub delays: Vec<String>,
     pub log_reads: bool,
     pub hook_log: bool,
@@ -199,6 +201,7 @@ impl Run {
             watch: vec![],
             fault: None,
             trunc_fault: None,
+            ns_fault: None,
             delays: vec![],
             log_reads: false,
             hook_log: false,
@@ -301,6 +304,9 @@ pub fn run(r: &Run) -> Outcome {
         }
         if let Some(f) = &r.fault {
             cmd.env("IOMON_FAULT", f);
+        }
+        if let Some(f) = &r.ns_fault {
+            cmd.env("IOMON_NS_FAULT", f);
         }
         if let Some(f) = &r.trunc_fault {
             cmd.env("IOMON_TRUNC_FAULT", f);
